@@ -4,7 +4,7 @@ CONSTANTS
   N2 = 1
   NT = 1
   Vals = {"p"}
-  Limits = {0, 1, 2, 9}
+  Limits = {1, 2, 9}
   NU = 0
   LookAhead = 99
   MaxOps = 1000000
